@@ -40,7 +40,6 @@ def part_lookup(ctx):
             continue
         if a[0] != m.get("model"):
             ctx.brk("rules.go RegoVersionFromVersionsMap ~ Version.lookup", cc, a, m)
-            continue
         if c["_s"] == "abs" and a[0] != m.get("spec"):
             ctx.fail("selected version is not the one of the deepest configured directory containing the file", cc, None,
                      {"impl": a[0], "spec": m.get("spec")})
@@ -102,7 +101,6 @@ def part_tree(ctx):
         ctx.seen(c, ("tree", c["id"]) if configured else None)
         if {k or "": v for k, v in i["versionsMap"].items()} != m.get("versionsMap"):
             ctx.brk("config.go AllRegoVersions ~ Version.allVersions", cc, i["versionsMap"], m.get("versionsMap"))
-            continue
         for name, kind in c["_regos"].items():
             got = i["files"].get(name) or {}
             ver = (m.get("files") or {}).get(name)
